@@ -230,6 +230,7 @@ inductive Err where
   | unknownRef (name : Str)
   | hiddenTrigger (trigger target : Str)
   | noLabel (name : Str)
+  | unusableTrigger (key : Str)
   | unsupported (why : String)
 deriving Repr, DecidableEq, Inhabited
 
@@ -315,8 +316,18 @@ def hasDup : List Str → Bool
   | [] => false
   | a :: as => as.contains a || hasDup as
 
+/-- the F8 repair (`Survey._is_usable_trigger`, fixes/F8.diff; active when `strict`): a trigger must be
+    exactly `${t}` for a question `t` that renders a control (a hidden `t` with setvalues attached is
+    left to `ctlErr`) -/
+def usableErr (qs : List Q) (tbl : List Trig) (e : Trig) : Option Err :=
+  match qs.find? (fun t => refOf t.name == e.key) with
+  | none => some (.unusableTrigger e.key)
+  | some t =>
+    if hiddenQ t then (if (triggered tbl t.name false).isEmpty then some (.unusableTrigger e.key) else none)
+    else if t.hasCtl then none else some (.unusableTrigger e.key)
+
 /-- all checks, in the order the implementation meets them (only acceptance is compared) -/
-def check (els : List El) : Option Err :=
+def check (strict : Bool) (els : List El) : Option Err :=
   let qs := questions els
   let names := allNames els
   let tbl := trigTable els
@@ -331,6 +342,9 @@ def check (els : List El) : Option Err :=
   | some e => some e
   | none =>
   match firstErr (keyErr names) tbl with
+  | some e => some e
+  | none =>
+  match (if strict then firstErr (usableErr qs tbl) tbl else none) with
   | some e => some e
   | none =>
   match firstErr (fun d => (defaultRefErr dyn names d).orElse fun _ => calcRefErr names d) qs with
@@ -366,8 +380,8 @@ def gen (dyn : Q → Bool) (sub : Path → Str → Str) (root : Str) (els : List
     binds := binds sub [root] els,
     body := body dyn sub paths tbl [root] els }
 
-def run (dyn : Q → Bool) (sub : Path → Str → Str) (root : Str) (els : List El) : Except Err Out :=
-  match check dyn els with
+def run (strict : Bool) (dyn : Q → Bool) (sub : Path → Str → Str) (root : Str) (els : List El) : Except Err Out :=
+  match check dyn strict els with
   | some e => .error e
   | none => .ok (gen dyn sub root els)
 
